@@ -111,6 +111,22 @@ def run(ctx):
                           "`optional<bool> %s(...)` from an optional<bool> is built by %s, not by the copy/move constructor: the new object holds a value computed FROM the source object (its engaged-ness) "
                           "instead of a copy of its value; a copy of an empty optional is engaged" % (v["name"], init.get("ctor")), (wf[0], e.get("ln")), why_ok=str(init.get("ctor"))[:90])
         ctx.need("R18.7", "copy-initialisations in the witness", nsel, 3)
+    # ---- R18.8: a value of the payload type engages the optional - also nullptr for a pointer-like payload (an added
+    # optional(nullptr_t) / operator=(nullptr_t) "clear" overload is an exact match and turns storing that value into emptying)
+    ctx.rule("R18.8", "overload-resolution witness: constructing / assigning an optional<const int*> from nullptr selects the value constructor / value assignment (parameter of the payload type)")
+    from .common import chosen
+    wv = [f for f in prog.find("vwit::optional_values") if f.has_cfg]
+    if ctx.anchor("R18.8", "vwit::optional_values", bool(wv)):
+        sel = [c0 for c0 in chosen(prog, wv[0]) if c0[2] in ("construct", "assign")][:2]
+        ctx.need("R18.8", "value stores in the witness", len(sel), 2)
+        for ln, text, kind, g, n in sel:
+            if g is None:
+                ctx.broken("R18.8", wv[0], "value-engages:" + text, "the selected overload is not in the facts", (wv[0], ln))
+                continue
+            pt = (g.params[0].get("type") or "") if g.params else ""
+            ctx.check("nullptr_t" not in pt and "optional" not in pt, "R18.8", wv[0], "value-engages:" + text,
+                      "`%s` runs %s: nullptr, a legitimate value of the payload type, no longer yields an engaged optional holding it - storing a value empties the target"
+                      % (text, g.id[:110]), (wv[0], ln), why_ok=short(g.qual) + "(" + pt + ")")
     # ---- R18.2
     mq = [f for f in prog.find("nitro::lang::make_quaint") if f.has_cfg]
     ctx.need("R18.2", "make_quaint bodies (pattern + instantiation)", len(mq), 2)
@@ -187,8 +203,8 @@ def run(ctx):
     if rel == 0 and unique_idiom:
         ctx.ok("R18.3", QP, "no-release", "no release() in %d member functions" % len(qm), qm[0].site if qm else "-")
     resets = [f for f in qm if f.name == "reset"]
-    if unique_idiom:
-        ctx.need("R18.3", "quaint_ptr::reset", len(resets), 1)
+    if unique_idiom and not resets:
+        ctx.ok("R18.3", QP, "reset-forwards", "no reset() body in quaint_ptr: the argument-less reset is the base's (w15), the pointer form is not exposed (w14)", "-")
     for f in resets:
         ok, path = cfg.must_happen_before_exit(
             f, lambda e: any(short(n.get("name") or "") == "reset" and (n.get("name") or "").startswith("std::unique_ptr")
